@@ -232,8 +232,9 @@ def finish(prop, m, known_all):
     for f in known_all:
         if f.get('property') == prop and f.get('status') == 'open':
             print('KNOWN-FINDING: property=%s %s [%s] (met %d times in this run)' % (prop, f['what'], f['id'], m['known_hits'].get(f['id'], 0)))
-    if m['errors']:
-        sys.stderr.write('CHECK BROKEN (harness error):\n' + '\n'.join(m['errors'][:3]) + '\n')
+    hb = [n for n in m.get('notes', []) if str(n).startswith('HARNESS-BUG')]
+    if m['errors'] or hb:
+        sys.stderr.write('CHECK BROKEN (harness error):\n' + '\n'.join([str(x) for x in (m['errors'] + hb)[:3]]) + '\n')
         return 2
     seen = set()
     rc = 0
